@@ -318,6 +318,7 @@ def splice(body, contract, applied):
     ins = []
     loops = find_loops(body)
     nloop_dirs = set()
+    degraded = []
     for idx, (kind, arg, text) in enumerate(contract.directives):
         if kind in ('subst', 'rule'):
             continue
@@ -338,7 +339,10 @@ def splice(body, contract, applied):
             except ValueError:
                 raise GenError('%s: bad loop ordinal %r' % (contract.origin, arg))
             if k >= len(loops):
-                raise GenError('%s: %s has %d loops, contract names loop %d (lost anchor)' % (contract.origin, contract.key, len(loops), k))
+                # the function now has fewer loops than the contract annotates: the annotation (a proof aid, not part
+                # of the contract) is dropped and the function is verified against its contract without it
+                degraded.append('%s %d' % (kind, k))
+                continue
             kw, ob, cb = loops[k]
             if kind == 'loop':
                 ins.append((ob, idx, '\n' + text))
@@ -365,6 +369,8 @@ def splice(body, contract, applied):
             raise GenError('%s: unknown directive @%s' % (contract.origin, kind))
     for pos, _, text in sorted(ins, key=lambda t: (-t[0], -t[1])):
         body = body[:pos] + text + body[pos:]
+    if degraded:
+        applied.append({'rule': 'DEGRADED', 'dropped_annotations': degraded})
     return body, len(loops)
 
 
@@ -654,6 +660,7 @@ def emit_fn(contract, verified, info):
     body = rule_for_range_with_continue(body, applied)
     body, nloops = splice(body, contract, applied)
     rec['rewrites'] = applied
+    rec['degraded'] = [a['dropped_annotations'] for a in applied if a.get('rule') == 'DEGRADED']
     rec['loops'] = nloops
     rec['clauses'] = len(re.findall(r'//\s*\[[^\]]+\]', head)) + sum(t.count('//') * 0 for _, _, t in contract.directives)
     info['functions'].append(rec)
@@ -683,6 +690,7 @@ def expand(unit, db=None, outdir=None, variant=None):
     os.makedirs(outdir, exist_ok=True)
     info = {'unit': unit, 'variant': variant, 'functions': [], 'stubs': [], 'types': [], 'assumptions': [], 'includes': []}
     lines = []
+    pending_rest = []
 
     def do_file(path, depth=0):
         if depth > 8:
@@ -709,6 +717,10 @@ def expand(unit, db=None, outdir=None, variant=None):
                 if key not in db:
                     raise GenError('unit %s: no contract for %s' % (unit, key))
                 lines.append(emit_fn(db[key], kind == 'fn', info))
+            elif s.startswith('//@stubrest '):
+                owner = s.split(None, 1)[1].strip()
+                pending_rest.append((len(lines), owner))
+                lines.append('')
             elif s.startswith('//@allmut '):
                 m = re.match(r'//@allmut\s+(\w+)\s+@\s+(.*)$', s)
                 check_all_mut(m.group(1), m.group(2).split(), info)
@@ -719,6 +731,20 @@ def expand(unit, db=None, outdir=None, variant=None):
                 lines.append(raw.rstrip('\n'))
 
     do_file(os.path.join(VERIF, 'units', unit + '.rs'))
+    # //@stubrest Owner: every other contracted function of Owner, as an assumed stub (so that code calling it
+    # still type-checks and is verified against the callee's contract)
+    emitted = set(f['fn'] for f in info['functions']) | set(f['fn'] for f in info['stubs'])
+    for pos, owner in pending_rest:
+        chunk = []
+        for key in sorted(db):
+            c = db[key]
+            if c.owner == owner and key not in emitted:
+                try:
+                    chunk.append(emit_fn(c, False, info))
+                    emitted.add(key)
+                except GenError:
+                    raise
+        lines[pos] = '\n'.join(chunk)
     text = '\n'.join(lines) + '\n'
     out = os.path.join(outdir, unit + ('__vac' if variant == 'vacuity' else '') + '.rs')
     with open(out, 'w') as f:
